@@ -3695,3 +3695,283 @@ func ruleC06Float32From64(c *ctx.Ctx, r *core.Reporter) {
 	sticky := (strings.Contains(src, "&0x7FF") || strings.Contains(src, "&2047")) && strings.Contains(src, "|") && strings.Contains(src, "$fround(")
 	r.Check(sticky, "helper:sticky-bit", fn.Pos(), helper+" masks the 11 low bits that do not fit into a float64, ORs their presence into the lowest kept bit, and rounds once with $fround")
 }
+
+// ruleC06ExactConstants: constant.Int64Val / Uint64Val report whether the value was representable; a result
+// taken with the flag discarded (`d, _ :=`) wraps silently. The template verbs that print integer constants
+// (%f: the whole value as a JavaScript number — a uint64 shift count of 1<<63 must not come out as
+// -9223372036854775808) have to print the exact digits or check the flag.
+func ruleC06ExactConstants(c *ctx.Ctx, r *core.Reporter) {
+	r.Begin("C06.exact-constants", "F-MUST", "the %f verb of formatExprInternal prints an integer constant from its exact value, not from an int64 obtained with the exactness flag discarded", 1)
+	fd := c.FuncDecl("compiler", "funcContext.formatExprInternal")
+	if fd == nil {
+		r.Undecided("formatExprInternal", "compiler/expressions.go", "not found")
+		return
+	}
+	var arm *ast.CaseClause
+	ast.Inspect(fd.Body, func(x ast.Node) bool {
+		if cc, ok := x.(*ast.CaseClause); ok {
+			for _, l := range cc.List {
+				if exprStr(l) == "'f'" {
+					arm = cc
+				}
+			}
+		}
+		return true
+	})
+	if arm == nil {
+		r.Undecided("verb-f", c.Pos(fd.Pos()), "no case 'f'")
+		return
+	}
+	exact := false
+	ast.Inspect(arm, func(x ast.Node) bool {
+		if ce, ok := x.(*ast.CallExpr); ok {
+			if se, ok := ce.Fun.(*ast.SelectorExpr); ok && se.Sel.Name == "ExactString" {
+				exact = true
+			}
+		}
+		return true
+	})
+	// an unguarded truncation that is reached first
+	truncFirst := false
+	for _, m := range findGoPattern(arm, `µd, _ := constant.Int64Val(µx)`) {
+		gs := guardsAt(arm, m.Node.Pos())
+		// fine if it sits behind the exact path (i.e. only reached for non-integer constants) — we accept it
+		// only when an ExactString path exists and precedes it
+		_ = gs
+		if !exact {
+			truncFirst = true
+		}
+	}
+	r.Check(exact && !truncFirst, "verb-f:exact-digits", c.Pos(arm.Pos()), "an integer constant operand of %f is written with constant.Value.ExactString() (the digits of the whole value): `x << (1<<63)` with a uint64 count must hand 9223372036854775808 to $shiftLeft64, not the wrapped int64")
+}
+
+// ruleC03ShiftedIsRun: $runScheduled takes a goroutine off the run queue with shift(); from that moment the
+// queue no longer knows it. It has to be run before the loop can be left (the 4 ms time-slice check) — a
+// `break` between the shift and the call drops a runnable goroutine for good, and because it still counts
+// as awake the deadlock detector says nothing.
+func ruleC03ShiftedIsRun(c *ctx.Ctx, r *core.Reporter) {
+	r.Begin("C03.shifted-is-run", "F-PAIR", "in $runScheduled the goroutine taken from $scheduled is called before any statement that can leave the loop", 1)
+	if !needPrelude(c, r) {
+		return
+	}
+	fn := c.PreludeFunc("$runScheduled")
+	if fn == nil {
+		r.Undecided("$runScheduled", "compiler/prelude/goroutines.js", "not found")
+		return
+	}
+	n := 0
+	fn.Walk(func(x *ctx.JSNode) bool {
+		if !x.Is("WhileStatement") || !strings.Contains(squash(x.N("test").Src()), "$scheduled.shift()") {
+			return true
+		}
+		n++
+		// the variable the test assigns
+		v := ""
+		x.N("test").Walk(func(y *ctx.JSNode) bool {
+			if y.Is("AssignmentExpression") && y.N("left").Is("Identifier") && v == "" {
+				v = y.N("left").IdentName()
+			}
+			return true
+		})
+		call, leave := -1, -1
+		x.N("body").Walk(func(y *ctx.JSNode) bool {
+			if y.IsFunc() {
+				return false
+			}
+			if y.Is("CallExpression") && y.N("callee").IdentName() == v && call < 0 {
+				call = y.Start
+			}
+			if y.Is("BreakStatement", "ReturnStatement", "ContinueStatement") && leave < 0 {
+				leave = y.Start
+			}
+			return true
+		})
+		r.Check(v != "" && call >= 0 && (leave < 0 || call < leave), fmt.Sprintf("run-before-leave#%d", n), x.Pos(), fmt.Sprintf("`%s()` comes before the first break/return/continue of the loop body (the goroutine is already off the queue)", v))
+		return true
+	})
+	r.Check(n >= 1, "sites", fn.Pos(), fmt.Sprintf("%d scheduling loop(s)", n))
+}
+
+// ruleC09ReceiverClone: a value-receiver method called through a pointer gets a COPY of the pointee when the
+// receiver type is a struct or an array. Which it is, is a property of the method's receiver type — the
+// operand's type is a pointer and never matches.
+func ruleC09ReceiverClone(c *ctx.Ctx, r *core.Reporter) {
+	r.Begin("C09.receiver-clone", "F-KEY", "in makeReceiver the $clone of the pointer case is decided by, and made with, the method's receiver type", 1)
+	fd := c.FuncDecl("compiler", "funcContext.makeReceiver")
+	if fd == nil {
+		r.Undecided("makeReceiver", "compiler/expressions.go", "not found")
+		return
+	}
+	ok := false
+	for _, m := range findGoPattern(fd.Body, `switch µm.Underlying().(type) { case *types.Struct, *types.Array: µr = µfc.formatExpr("$clone(%s, %s)", µr, µfc.typeName(µm)) }`) {
+		// µm is the receiver type of the method: <sel>.Obj().Type().(*types.Signature).Recv().Type()
+		for _, d := range localAssignments(fd, m.Env["µm"]) {
+			if strings.Contains(exprStr(d.rhs), ".Recv().Type()") {
+				ok = true
+			}
+		}
+	}
+	r.Check(ok, "clone-by-method-receiver-type", c.Pos(fd.Pos()), "`switch <T>.Underlying().(type) { case *types.Struct, *types.Array: recv = $clone(recv, <T>) }` with <T> the receiver type of the method (sel.Obj().Type().(*types.Signature).Recv().Type()); with the operand's pointer type the arm never matches and p.M() works on the pointee itself")
+}
+
+// ruleC05DepsInsideCollector: the DCE dependencies of a declaration are whatever DeclareDCEDep is told while
+// pkgCtx.CollectDCEDeps(decl, func) runs its callback. Every translation helper that names other objects
+// (typeName, methodListEntry, objectName, instName, zeroValue, initArgs, translate…) tells it as a side
+// effect — but only inside the callback. Code text computed before or after the callback carries no
+// dependency: the declaration keeps mentioning a type that dead-code elimination then removes.
+func ruleC05DepsInsideCollector(c *ctx.Ctx, r *core.Reporter) {
+	r.Begin("C05.deps-inside", "F-WHO", "in every function that collects DCE dependencies for a declaration, the helpers that name other objects are called only inside the CollectDCEDeps callback", 4)
+	declaring := map[string]bool{"typeName": true, "methodListEntry": true, "zeroValue": true, "initArgs": true, "translateExpr": true, "translateStmt": true, "translateStmtList": true, "translateTopLevelFunction": true, "translateConversion": true, "translateImplicitConversion": true, "methodName": true}
+	n := 0
+	for _, fd := range c.AllFuncDecls("compiler") {
+		if fd.Body == nil || c.IsTestFile(fd.Pos()) {
+			continue
+		}
+		var callbacks []*ast.FuncLit
+		ast.Inspect(fd.Body, func(x ast.Node) bool {
+			ce, ok := x.(*ast.CallExpr)
+			if !ok {
+				return true
+			}
+			if se, ok := ce.Fun.(*ast.SelectorExpr); ok && se.Sel.Name == "CollectDCEDeps" && len(ce.Args) == 2 {
+				if fl, ok := ce.Args[1].(*ast.FuncLit); ok {
+					callbacks = append(callbacks, fl)
+				}
+			}
+			return true
+		})
+		if len(callbacks) == 0 {
+			continue
+		}
+		n++
+		outside := ""
+		ast.Inspect(fd.Body, func(x ast.Node) bool {
+			ce, ok := x.(*ast.CallExpr)
+			if !ok {
+				return true
+			}
+			se, ok := ce.Fun.(*ast.SelectorExpr)
+			if !ok || !declaring[se.Sel.Name] {
+				return true
+			}
+			for _, cb := range callbacks {
+				if cb.Pos() <= ce.Pos() && ce.Pos() < cb.End() {
+					return true
+				}
+			}
+			if why, reviewed := depsOutsideReviewed[ctx.FuncName(fd)+":"+se.Sel.Name]; reviewed {
+				_ = why
+				return true
+			}
+			if outside == "" {
+				outside = exprStr(ce.Fun) + " at " + c.Pos(ce.Pos())
+			}
+			return true
+		})
+		r.Check(outside == "", "deps-inside:"+ctx.FuncName(fd), c.Pos(fd.Pos()), ctx.FuncName(fd)+": every object-naming helper is called inside the CollectDCEDeps callback"+ternary(outside != "", " (outside: "+outside+" — what it names is not recorded as a dependency of the declaration)", ""))
+	}
+	r.Check(n >= 4, "sites", "compiler/decls.go", fmt.Sprintf("%d functions collect DCE dependencies", n))
+}
+
+// calls of object-naming helpers outside the collector callback that are right as they are
+var depsOutsideReviewed = map[string]string{
+	"funcContext.newFuncDecl:translateStmt": "the InitCode of an init function calls that function itself; the declaration is marked alive unconditionally in the same arm",
+}
+
+// ruleStatementTemplatesTerminated: the minifier removes line breaks, so a JavaScript statement the compiler
+// prints must end in `;` (or in a brace / label colon / comment) by itself: relying on automatic semicolon
+// insertion at the end of the line works in the plain build only.
+func ruleStatementTemplatesTerminated(c *ctx.Ctx, r *core.Reporter) {
+	r.Begin("C16.stmt-end", "F-LEX", "every statement template handed to funcContext.Printf ends in `;`, `{`, `}`, `:` or a comment", 50)
+	n := 0
+	for _, t := range usableTemplates(c) {
+		if t.Sink != "Printf" || t.ArgIndex != 0 {
+			continue
+		}
+		txt := strings.TrimSpace(t.Text)
+		bare := strings.TrimSpace(commentHoleRe.ReplaceAllString(txt, ""))
+		if txt == "" || (strings.HasPrefix(bare, "⟨") && strings.HasSuffix(bare, "⟩") && strings.Count(bare, "⟨") == 1) {
+			continue // nothing but one hole: an already formed statement is passed through
+		}
+		n++
+		rs := []rune(txt)
+		last := rs[len(rs)-1]
+		ok := last == ';' || last == '{' || last == '}' || last == ':' || strings.HasSuffix(txt, "*/")
+		r.Check(ok, "stmt-end:"+t.Key(), c.Pos(t.Pos), "`"+t.Text+"` ends a statement explicitly"+ternary(ok, "", " (it ends in `"+string(last)+"`: under -m the next statement is glued to it)"))
+	}
+	r.Check(n >= 50, "templates", "compiler", fmt.Sprintf("%d statement templates examined", n))
+}
+
+// ruleC07ReceiverCopy: a value receiver of struct or array type is the method's own copy. Direct calls hand
+// one over (makeReceiver clones), but a call through an interface, a method value or a method expression
+// passes the stored object itself; the method has to make the copy when its body can change the receiver.
+func ruleC07ReceiverCopy(c *ctx.Ctx, r *core.Reporter) {
+	r.Begin("C07.receiver-copy", "F-MUST", "translateFunctionBody binds a struct/array value receiver to a $clone of `this` when a may-modify analysis of the body says so, and that analysis knows every way a variable can be changed", 2)
+	fd := c.FuncDecl("compiler", "funcContext.translateFunctionBody")
+	if fd == nil {
+		r.Undecided("translateFunctionBody", "compiler/functions.go", "not found")
+		return
+	}
+	// the type switch on struct/array that guards the $clone of the receiver
+	helper := ""
+	site := fd.Pos()
+	ast.Inspect(fd.Body, func(x ast.Node) bool {
+		cc, ok := x.(*ast.CaseClause)
+		if !ok {
+			return true
+		}
+		labs := map[string]bool{}
+		for _, l := range cc.List {
+			labs[exprStr(l)] = true
+		}
+		if !(labs["*types.Struct"] && labs["*types.Array"]) {
+			return true
+		}
+		ast.Inspect(cc, func(y ast.Node) bool {
+			is, ok := y.(*ast.IfStmt)
+			if !ok {
+				return true
+			}
+			clones := false
+			ast.Inspect(is.Body, func(z ast.Node) bool {
+				if bl, ok := z.(*ast.BasicLit); ok && strings.Contains(bl.Value, "$clone(") {
+					clones = true
+				}
+				return true
+			})
+			if ce, ok := is.Cond.(*ast.CallExpr); ok && clones {
+				if se, ok := ce.Fun.(*ast.SelectorExpr); ok {
+					helper = se.Sel.Name
+					site = is.Pos()
+				}
+			}
+			return true
+		})
+		return true
+	})
+	r.Check(helper != "", "prologue-clones-modified-receiver", c.Pos(site), "under `case *types.Struct, *types.Array` the receiver is bound to `$clone(this, T)` when the may-modify predicate holds (interface calls, method values and method expressions pass the stored value itself: `var i I = s; i.Bump(); i.Bump()` would count 1, 2)"+ternary(helper != "", " (predicate: "+helper+")", ""))
+	if helper == "" {
+		return
+	}
+	hd := c.FuncDecl("compiler", "funcContext."+helper)
+	if hd == nil {
+		r.Undecided("predicate", c.Pos(site), helper+" not found")
+		return
+	}
+	covers := map[string]bool{}
+	ast.Inspect(hd.Body, func(x ast.Node) bool {
+		if cc, ok := x.(*ast.CaseClause); ok {
+			for _, l := range cc.List {
+				covers[exprStr(l)] = true
+			}
+		}
+		return true
+	})
+	var missing []string
+	for _, k := range []string{"*ast.AssignStmt", "*ast.IncDecStmt", "*ast.RangeStmt", "*ast.UnaryExpr", "*ast.SliceExpr", "*ast.SelectorExpr"} {
+		if !covers[k] {
+			missing = append(missing, k)
+		}
+	}
+	r.Check(len(missing) == 0, "predicate-covers-modifications", c.Pos(hd.Pos()), fmt.Sprintf("%s looks at assignments, ++/--, range targets, & (address), slicing of arrays and pointer-receiver method selections%s", helper, ternary(len(missing) > 0, fmt.Sprintf(" — no arm for %v", missing), "")))
+}
